@@ -12,6 +12,7 @@ import (
 	"sort"
 	"strings"
 
+	"golang.org/x/tools/go/callgraph"
 	"golang.org/x/tools/go/packages"
 	"golang.org/x/tools/go/ssa"
 	"golang.org/x/tools/go/ssa/ssautil"
@@ -35,6 +36,7 @@ type Program struct {
 	All   []*packages.Package          // with dependencies
 	ssa   *ssa.Program
 	ssaPk map[*packages.Package]*ssa.Package
+	cg    *callgraph.Graph
 }
 
 // Load type-checks every package of the repository's root module.
@@ -226,4 +228,30 @@ func ObjKey(fn *types.Func) string {
 		}
 	}
 	return rel + "." + fn.Name()
+}
+
+func recvString(t types.Type) string {
+	if pt, ok := t.(*types.Pointer); ok {
+		t = pt.Elem()
+	}
+	if n, ok := t.(*types.Named); ok {
+		return "(" + n.Obj().Name() + ")"
+	}
+	return "(" + t.String() + ")"
+}
+
+// TypesInfoFor returns the types.Info of the repository package that declares pos.
+func (p *Program) InfoAt(pos token.Pos) *types.Info {
+	f := p.Fset.File(pos)
+	if f == nil {
+		return nil
+	}
+	for _, pk := range p.Pkgs {
+		for _, s := range pk.Syntax {
+			if p.Fset.File(s.Pos()) == f {
+				return pk.TypesInfo
+			}
+		}
+	}
+	return nil
 }
